@@ -271,3 +271,84 @@ func verifHarness_C06_field_mutation() {
 	verifKeepAlive(r)
 	verifReach("end")
 }
+
+// C03: collections whose items occupy zero bytes on the wire (null, fixed of
+// size 0, a record without fields): the datum is a count followed by nothing
+// but the terminator, wherever it sits - as the last thing in the buffer or
+// followed by more fields. It decodes (and is skipped) like any other.
+func verifHarness_C03_zero_byte_items() {
+	verifAllocMax(64)
+	null := Schema{Type: "null"}
+	fixed0 := Schema{Type: "fixed", Object: &SchemaObject{Name: "f0", Size: 0}}
+	empty := Schema{Type: "record", Object: &SchemaObject{Name: "e"}}
+	var fs Schema
+	var proto any
+	var mk func() unsafe.Pointer
+	var length func(p unsafe.Pointer) int
+	switch verifChoice("pair", 4) {
+	case 0:
+		fs = Schema{Type: "array", Object: &SchemaObject{Items: null}}
+		proto, mk = &verifC05_slice_int64{}, func() unsafe.Pointer { return unsafe.Pointer(new(verifC05_slice_int64)) }
+		length = func(p unsafe.Pointer) int { return len((*verifC05_slice_int64)(p).F) }
+	case 1:
+		fs = Schema{Type: "array", Object: &SchemaObject{Items: fixed0}}
+		proto, mk = &verifC05_slice_arr0{}, func() unsafe.Pointer { return unsafe.Pointer(new(verifC05_slice_arr0)) }
+		length = func(p unsafe.Pointer) int { return len((*verifC05_slice_arr0)(p).F) }
+	case 2:
+		fs = Schema{Type: "array", Object: &SchemaObject{Items: empty}}
+		proto, mk = &verifC03EmptyItems{}, func() unsafe.Pointer { return unsafe.Pointer(new(verifC03EmptyItems)) }
+		length = func(p unsafe.Pointer) int { return len((*verifC03EmptyItems)(p).F) }
+	case 3:
+		fs = Schema{Type: "array", Object: &SchemaObject{Items: null}}
+		var e struct{}
+		proto, mk = &e, func() unsafe.Pointer { return unsafe.Pointer(new(struct{})) }
+	}
+	fields := []SchemaRecordField{{Name: "F", Type: fs}}
+	trailing := verifChoice("trailing-field", 2) == 1
+	if trailing {
+		fields = append(fields, SchemaRecordField{Name: "X", Type: Schema{Type: "long"}})
+	}
+	s := Schema{Type: "record", Object: &SchemaObject{Name: "r", Fields: fields}}
+	c, err := s.Codec(proto)
+	verifAssume(err == nil)
+	n := verifChoice("items", 5)
+	x := int64(verifSmall("x"))
+	// items of every kind here encode to nothing, so one shape serves all
+	var enc []byte
+	split := verifChoice("split", 2)
+	if n > 0 {
+		first := n
+		if split == 1 && n > 1 {
+			first = 1
+		}
+		if verifChoice("sized", 2) == 1 {
+			enc = append(enc, refZZ(-int64(first))...)
+			enc = append(enc, 0)
+		} else {
+			enc = append(enc, refZZ(int64(first))...)
+		}
+		if first < n {
+			enc = append(enc, refZZ(int64(n-first))...)
+		}
+	}
+	enc = append(enc, 0)
+	if trailing {
+		enc = append(enc, refZZ(x)...)
+	}
+	out := mk()
+	r := NewReadBuf(enc)
+	err = c.Read(r, out)
+	verifAssert(err == nil, "C03:read-ok")
+	if err == nil {
+		verifAssert(r.Len() == 0, "C03:consumes-all")
+		if length != nil {
+			verifAssert(length(out) == n, "C03:decoded-value-is-the-datum")
+		}
+	}
+	verifReach("end")
+}
+
+type verifC03EmptyItems struct {
+	F []struct{}
+	X int64
+}
